@@ -1,4 +1,7 @@
 #!/venv/bin/python
+
+NOTE: the patch is applied to /repo itself for the duration of the run: never run two of these at once, and never while a
+self-test (which copies /repo/src for every patch it tries) is running -- the two must not overlap.
 """Confirm a seeded change and run the registered checks against it.
 
 usage: seed.py <patch> <demo> <property> <seed-id> [--needs "..."]
